@@ -70,7 +70,7 @@ func (i *interpreter) fmtValue(fr *frame, verb byte, arg value) []value {
 	switch v := itf.v.(type) {
 	case string, symstr:
 		if verb == 'd' {
-			return append(strBytes("%!d(string="), append(strBytes(v), ')')...)
+			return append(strBytes("%!d(string="), append(strBytes(v), byte(')'))...)
 		}
 		return i.fmtStr(verb, v)
 	case []value:
@@ -151,7 +151,7 @@ func (i *interpreter) badVerb(fr *frame, verb byte, arg value) []value {
 		out = append(out, strBytes(typeString(itf.t)+"=")...)
 		out = append(out, i.fmtValue(fr, 'v', arg)...)
 	}
-	return append(out, ')')
+	return append(out, byte(')'))
 }
 
 // sprintf formats; wrapped receives the operand of the first %w, if any.
@@ -238,7 +238,7 @@ func (i *interpreter) sprintf(fr *frame, format value, args []value, wrapped *va
 				out = append(out, i.fmtValue(fr, 'v', args[k])...)
 			}
 		}
-		out = append(out, ')')
+		out = append(out, byte(')'))
 	}
 	return out
 }
